@@ -175,12 +175,12 @@ theorem sinM_cosM_angleMod_hyps :
   · intro t d
     obtain ⟨k, hk⟩ := angleMod_congr truncF (mpi : ℝ) d
     simp only [sinM, hk]
-    rw [show (t + (d + (k : ℝ) * (2 * mpi))) * (π / mpi) = (t + d) * (π / mpi) + (k : ℝ) * (2 * π) by field_simp,
+    rw [show (t + (d + (k : ℝ) * (2 * mpi))) * (π / mpi) = (t + d) * (π / mpi) + (k : ℝ) * (2 * π) by field_simp; ring,
       Real.sin_add_int_mul_two_pi]
   · intro t d
     obtain ⟨k, hk⟩ := angleMod_congr truncF (mpi : ℝ) d
     simp only [cosM, hk]
-    rw [show (t + (d + (k : ℝ) * (2 * mpi))) * (π / mpi) = (t + d) * (π / mpi) + (k : ℝ) * (2 * π) by field_simp,
+    rw [show (t + (d + (k : ℝ) * (2 * mpi))) * (π / mpi) = (t + d) * (π / mpi) + (k : ℝ) * (2 * π) by field_simp; ring,
       Real.cos_add_int_mul_two_pi]
 
 end ImathVerif.Euler
